@@ -13,9 +13,11 @@ Stages
   3  code -> spec: per-symbol traces of real encodes / decodes recorded in BOTH std configurations are validated by
      TLC against the same Trace_LzmaSymbols / Trace_LzDecoder specifications.
   4  the transcript differential (the property's own oracle): one binary per feature configuration runs the same
-     seeded case list (compress option grid x inputs; decode valid, bit-flipped, truncated and chunk-shortened
-     streams); transcripts (digest of the compressed bytes, decode outcome, error kind, bytes delivered before the
-     error, digest of those bytes) must be identical line by line.
+     seeded case list (compress option grid x inputs, incl. inputs that end exactly where the encoder's window
+     buffer is physically full; decode valid, bit-flipped, truncated and chunk-shortened streams); transcripts (digest of the compressed bytes, decode outcome, error kind, bytes delivered before the
+     error, digest of those bytes, and the result - byte count + digest or error kind - of each of the read calls
+     a caller makes on the same reader after the first error / after the end of the stream) must be identical line
+     by line.
 """
 import json, os, random, time
 from vlib import core
@@ -33,8 +35,10 @@ MANIFEST = dict(
     text="Four builds of the crate (default; std without `optimization`; no_std with and without `optimization`), made from one "
          "source state, run the same seeded case list - compression over an option grid x input classes, decoding of the valid "
          "streams and of bit-flipped, truncated and chunk-shortened (direct-bit runs reading past the LZMA2 chunk buffer) variants, "
-         "forged far-match streams - and their transcripts (digest of compressed bytes, decode outcome, error kind, bytes delivered "
-         "before the error and their digest) must be identical. The places where the configurations run different code are "
+         "forged far-match streams, inputs whose length is exactly at / next to the physical size of the encoder's window buffer "
+         "(computed from the options, confirmed by the window hook) and end in short repeat matches - and their transcripts (digest "
+         "of compressed bytes, decode outcome, error kind, bytes delivered before the error and their digest, and the results of "
+         "the read calls made on the same reader after the first error / after the end of the stream) must be identical. The places where the configurations run different code are "
          "specified once in TLA+ and checked by TLC: direct-bit decoding with its buffer position accounting (RangeCoder.tla at "
          "reduced width: Decode(Encode(s)) = s, BytesPulled = BytesPushed, PendingSizeExact, PosAccounting / PastEndReadsZero; the "
          "clamping assembly design of defect D19 violates them and TLC reports the state classes) and max(p - off, 0) "
@@ -178,6 +182,111 @@ def case_list(seed, n, tier):
     return cases
 
 
+MATCH_LEN_MAX = 273
+
+
+def window_buf_size(fmt, opts):
+    """Physical size of the encoder's window buffer for an option set: `get_buf_size` of src/lz/lz_encoder.rs with the
+    extra sizes `LZMAEncoder::new` (per mode) and the writers (LZMA2 / XZ: room for one uncompressed chunk in front of
+    small dictionaries) pass in. Only used to choose input lengths; `check_window_formula` compares it with what the
+    hooked encoder reports."""
+    d = opts["dict"]
+    mode = opts.get("mode") or ("fast" if opts.get("preset", 6) <= 3 else "normal")
+    before = max(0, (64 << 10) - d) if fmt in ("lzma2", "xz") else 0
+    if mode == "fast":
+        before, after = max(before, 1), MATCH_LEN_MAX - 1
+    else:
+        before, after = max(before, 4096), 4096
+    return d + before + after + MATCH_LEN_MAX + min(d // 2 + (256 << 10), 512 << 20)
+
+
+def check_window_formula(cases):
+    """Vacuity guard of the window-boundary class: the lengths are only `at the boundary` if window_buf_size is what
+    the encoder really allocates (event `New` of the window hooks, default build)."""
+    seen = {}
+    for c in cases:
+        o = c["opts"]
+        mode = o.get("mode") or ("fast" if o["preset"] <= 3 else "normal")
+        key = ("lzma2" if c["fmt"] in ("lzma2", "xz") else "lzma1", mode, o["dict"])
+        seen.setdefault(key, window_buf_size(c["fmt"], o))
+    keys = sorted(seen)
+    jobs = [json.dumps({"id": f"w{i}", "writer": k[0], "opt": {"dict": k[2], "mode": k[1], "mf": "bt4"},
+                        "input": [{"class": "text", "len": 10, "seed": 1}], "trace": 1, "decode": False}) for i, k in enumerate(keys)]
+    outs = symlib.run_lines(os.path.join(core.build_harness(), "vh_codec"), jobs, nproc=1)
+    for k, l in zip(keys, outs):
+        ev = [e for e in json.loads(l).get("events", []) if e.get("ev") == "New"]
+        if not ev or ev[0]["bs"] != seen[k]:
+            raise ToolError(f"window_buf_size{k} = {seen[k]} but the encoder allocates {ev[0]['bs'] if ev else None}: the "
+                            f"window-boundary input lengths are no longer at the boundary (vacuous)")
+    return len(keys)
+
+
+def short_match_tail(rnd, n):
+    """About n bytes whose cheapest coding is a dense mix of short matches (2..6 bytes) at a handful of alternating distances -
+    i.e. rep0..rep3 candidates at almost every position, the last bytes included - and literals; windows of its last
+    bytes also occur further back, so that longer matches at other distances span the short ones."""
+    alpha = rnd.choice([4, 16, 256, 256])
+    sym = lambda: rnd.randrange(alpha) * (256 // alpha)
+    rep = [sym() for _ in range(rnd.choice([48, 80, 120]))]
+    dists = [rnd.randrange(1, len(rep)) for _ in range(rnd.choice([2, 3, 4]))]
+    last = None
+    while len(rep) < n:
+        k = rnd.random()
+        if k < 0.72:
+            last = rnd.choice([x for x in dists if x != last] or dists)
+            for _ in range(rnd.choice([2, 2, 2, 3, 3, 4, 6, 12])):
+                rep.append(rep[-last])
+        elif k < 0.82:
+            dists[rnd.randrange(len(dists))] = rnd.randrange(1, min(len(rep), 400))
+        else:
+            rep.append(sym())
+            last = None
+    # the input ends in a 2..3 byte match at one of the distances used before, preferably not the most recent one
+    d = rnd.choice([x for x in dists if x != last] or dists)
+    for _ in range(rnd.choice([2, 2, 2, 3])):
+        rep.append(rep[-d])
+    # echoes of windows over the last bytes, planted in front (with fillers): candidates that span the short matches
+    front = []
+    for _ in range(rnd.choice([0, 1, 2, 4])):
+        ln = rnd.choice([3, 4, 4, 5, 7])
+        end = len(rep) - rnd.choice([0, 0, 1, 2])
+        front += [rnd.randrange(256) for _ in range(rnd.randrange(1, 60))] + rep[end - ln:end]
+    front += [rnd.randrange(256) for _ in range(rnd.randrange(1, 30))]
+    return bytes(front + rep)
+
+
+def window_cases(seed, n, tier):
+    """Inputs whose length sits at / just below / just above the physical size of the encoder's window buffer (the
+    buffer is exactly full when the input ends: every bounds clamp / limit of the match finders and of the optimal
+    parser is at its extreme), ending in short repeat matches, both modes."""
+    rnd = random.Random(seed ^ 0xB0F5)
+    cases = []
+    dicts = [4096, 65536, 65536] + ([1 << 18, 1 << 20] if tier != "quick" else [])
+    for i in range(n):
+        fmt = rnd.choice(["lzma2", "lzma2", "lzma", "xz", "lzip"])
+        normal = rnd.random() < 0.7
+        opts = {"preset": rnd.choice([4, 5, 6, 6, 9] if normal else [0, 1, 3]), "dict": rnd.choice(dicts)}
+        if rnd.random() < 0.4:
+            opts["mode"] = "normal" if normal else "fast"
+            opts["mf"] = rnd.choice(["hc4", "bt4"])
+        if rnd.random() < 0.3:
+            opts["nice"] = rnd.choice([8, 16, 32, 64, 273])
+        if rnd.random() < 0.3 and fmt != "lzip":
+            lc, lp, pb = rnd.choice(LCLPPB)
+            opts.update({"lc": lc, "lp": lp, "pb": pb})
+        size = window_buf_size(fmt, opts) + rnd.choice([0, 0, 0, 0, 0, -1, 1, -2, 2])
+        tail = short_match_tail(rnd, rnd.choice([40, 100, 300]))
+        c = {"id": f"w{i}", "fmt": fmt, "opts": opts, "reads": [65536],
+             "data": {"class": rnd.choice(["seq", "periodic", "zeros", "text"]), "len": size, "seed": rnd.randrange(1 << 30), "tail_hex": tail.hex()},
+             "muts": [{"k": "trunc", "drop": rnd.choice([1, 3, 20])}] if rnd.random() < 0.3 else []}
+        if rnd.random() < 0.4:
+            c["write"] = rnd.choice([4096, 65536, 100000])
+        if fmt == "lzma" and rnd.random() < 0.5:
+            c["size_known"] = True
+        cases.append(c)
+    return cases
+
+
 def forged_cases(seed, n):
     """Forged symbol scripts (StreamForge) with far matches = long direct-bit runs, decoded as-is and shortened."""
     rnd = random.Random(seed ^ 0x5A5A)
@@ -242,6 +351,12 @@ def run_transcripts(ctx, bins, cases, tag):
         ctx.add("evaluations", len(CONFIGS))
         if r.get("dec", "").startswith("err") or r.get("dec") == "panic":
             ctx.add("error_outcomes")
+        # the read calls made after the first error / after the end of the stream are part of the line
+        after = [a.split(":", 2)[1] for a in r.get("after", []) if not a.startswith("0:")]
+        if after:
+            ctx.add("reads_after_error" if r.get("dec", "").startswith("err") else "reads_after_end", len(after))
+            if r.get("dec", "").startswith("err") and "err" in after:
+                ctx.add("errors_repeated_after_error")
         cid = r["id"].split("/")[0]
         for cfg in CONFIGS[1:]:
             if (cid, cfg) in enc_differs:
@@ -725,6 +840,15 @@ def run(tier, replay=None):
     cases = case_list(ctx.seed, 500 if quick else 4000, tier)
     c1, n1, d1 = run_transcripts(ctx, bins, cases, "grid")
     classes |= {("t",) + c for c in c1}
+    # inputs that end exactly where the encoder's window buffer is physically full (and one / two bytes off)
+    wcases = window_cases(ctx.seed, 160 if quick else 1500, tier)
+    ctx.cov["window_buffer_sizes_confirmed_by_hook"] = check_window_formula(wcases)
+    exact = sum(1 for c in wcases if c["data"]["len"] == window_buf_size(c["fmt"], c["opts"]))
+    if exact == 0 or exact == len(wcases):
+        raise ToolError("vacuous window-boundary cases: no input ends exactly at / next to the end of the window buffer")
+    c3, n3, d3 = run_transcripts(ctx, bins, wcases, "window")
+    classes |= {("w",) + c for c in c3}
+    ctx.cov["window_boundary_cases"] = {"cases": len(wcases), "buffer_exactly_full_at_end": exact}
     fj = forged_cases(ctx.seed, 80 if quick else 1000)
     fr = symlib.run_sym_jobs([dict(j, op="forge", forge_only=True, emit_hex=True) for j in fj])
     fcases = []
@@ -737,8 +861,8 @@ def run(tier, replay=None):
         fcases.append({"id": j["id"], "op": "dec", "fmt": "lzma2", "dict": 1 << 16, "hex": r["hex"], "reads": [rnd.choice([1, 7, 4096])]})
     c2, n2, d2 = run_transcripts(ctx, bins, fcases, "forged")
     classes |= {("f",) + c for c in c2}
-    ctx.cov["transcript_lines"] = n1 + n2
-    ctx.cov["transcript_differences"] = d1 + d2
+    ctx.cov["transcript_lines"] = n1 + n2 + n3
+    ctx.cov["transcript_differences"] = d1 + d2 + d3
     ctx.cov["configurations"] = CONFIGS
     ctx.cov["distinct_nontrivial"] = len(classes)
     ctx.cov["rule"] = ("distinct (stage, format or variant, mutation kind / state class, encode outcome, decode outcome) classes: transcript "
@@ -746,6 +870,8 @@ def run(tier, replay=None):
                        "the buffer, beyond the end, last byte zero, normalisation pending); Norm arrays by (variant, source, class set)")
     if ctx.cov.get("error_outcomes", 0) == 0:
         raise ToolError("vacuous transcripts: no corrupt stream produced an error")
+    if min(ctx.cov.get(k, 0) for k in ("reads_after_error", "reads_after_end", "errors_repeated_after_error")) == 0:
+        raise ToolError("vacuous transcripts: no read call was made on a reader after its first error / after the end of its stream")
     ctx.assumptions += ["x86-64 only", "no_std builds run without hooks: transcript differential only",
                         "reduced-width range coder model (8-bit range, 2-bit shift, 3-bit probabilities)"]
     ctx.finish()
